@@ -246,3 +246,20 @@ LEMMAS = [Lemma("C02.no_reverse_flow", ["C02"], _no_reverse_flow_lemma,
                 uses=["_CloseHeadPumpCondition.evaluate#reverse_flow_beyond_the_tolerance_closes_the_pump", "_CloseCVCondition.evaluate#open_cv_never_has_reverse_flow_beyond_Qtol",
                       "WNTRSimulator.run_sim#saved_state_is_a_fixed_point_of_postsolve_and_feasibility_controls", "WNTRSimulator.run_sim#postsolve_controls_see_a_freshly_stored_solution", "Pipe/Pump/Valve.status", "head-loss builders: closed link => flow = 0"],
                 note="head pumps and check-valve pipes; power pumps not decided (see the lemma's docstring)")]
+
+
+# ---------------------------------------------------------------------------- bounded: the laws on the reported results of real runs
+
+from pyvc.runner import Bounded
+
+
+def _laws(i, n):
+    def run(tier, seed):
+        import sys, os
+        sys.path.insert(0, os.path.dirname(os.path.dirname(os.path.abspath(__file__))))
+        from bounded import c02_laws
+        return c02_laws.run(tier, seed, i, n)
+    return run
+
+
+BOUNDED = [Bounded("C02.laws_on_runs[%d/4]" % i, ["C02"], _laws(i, 4), kind="real simulator on listed / generated networks (not exhaustive)") for i in range(4)]
